@@ -9,6 +9,7 @@ Correspondence: the model driver `Main/Measures.lean` against the real functions
 import sys, math
 from fractions import Fraction
 from common import *  # noqa
+sys.path.insert(0, os.path.join(VERIF, 'translate')); import cores  # noqa: E402
 
 PID = 'C04'
 TOL = 1e-9
@@ -1212,7 +1213,12 @@ def main():
                        'outputs the library defines only up to a choice among ties (hops and Pmat of distance_wei_floyd, B of distance_wei) are excluded',
                        'calls that hit the watchdog are counted as timeouts, not violations']
     t_ = time.time()
+    # T-gen source pins (translate/cores.py): rename-tolerant normalised bodies of the routines this check covers that have no interpreted tie
+    ck.cov['cores'] = cores.generate(families=['pinmeas', 'pinpart', 'pinwalk'])
+    for p_ in ck.cov['cores']['problems']:
+        ck.corr_break('core extractor (translate/cores.py)', p_)
     ok = ck.lean_gate(['BctVerif.Props.C04'], extra_modules=['BctVerif.Model.Measures'])
+    ck.lean_gate([], gen_modules=['BctVerif.Gen.CoresPinMeas', 'BctVerif.Gen.CoresPinPart', 'BctVerif.Gen.CoresPinWalk'])
     ck.dist['lean_gate_s'] = round(time.time() - t_, 1)
     if ck.tier == 'thorough' and ok:
         ck.leanchecker(['BctVerif.Props.C04', 'BctVerif.Model.Measures'])
